@@ -79,13 +79,16 @@ def main():
     with open(known_path, 'w') as f:
         json.dump(known, f)
 
-    def run_one(u):
+    def run_one(u, budget_factor=1):
         # one fresh interpreter per unit: reproducible solver verdicts, and a crashing / hanging unit cannot take the check down
-        out_path = os.path.join(tmpdir, f'{abs(hash(u))}.json')
+        out_path = os.path.join(tmpdir, f'{abs(hash(u))}_{budget_factor}.json')
         t1 = time.time()
+        env = dict(os.environ)
+        if budget_factor != 1:
+            env['PYVC_TIMEOUT_MS'] = str(int(os.environ.get('PYVC_TIMEOUT_MS', '20000')) * budget_factor)
         try:
             p = subprocess.run([sys.executable, '-W', 'ignore', '-m', 'pyvc.unitrun', modname, u, tier, str(seed), known_path, out_path],
-                               cwd=VERIF, capture_output=True, text=True, timeout=unit_timeout)
+                               cwd=VERIF, capture_output=True, text=True, timeout=unit_timeout, env=env)
         except subprocess.TimeoutExpired:
             return {'unit': u, 'undecided_unit': f'unit timed out after {unit_timeout}s', 'wall_s': round(time.time() - t1, 1)}
         if os.path.exists(out_path):
@@ -97,6 +100,21 @@ def main():
     else:
         with ThreadPoolExecutor(max_workers=min(a.jobs, len(units))) as ex:
             results = list(ex.map(run_one, units))
+    # second chance: a unit that left something undecided (solver time-outs under load) is run once more, alone, with three times the solver budget;
+    # the second answer replaces the first one only if it leaves less undecided (verdicts never flip: unsat stays unsat, a model stays a model)
+    def n_undecided(r):
+        if 'undecided_unit' in r:
+            return 10 ** 6
+        n = sum(1 for fu in r.get('functions', []) for o in fu.get('obligations', []) if o.get('status') == 'undecided')
+        n += sum(1 for fu in r.get('functions', []) if fu.get('undecided'))
+        n += sum(1 for o in r.get('lemmas', []) if o.get('status') == 'undecided')
+        return n
+    for k, (u, r) in enumerate(zip(units, results)):
+        if 'crash' not in r and n_undecided(r) > 0 and not r.get('bounded'):
+            r2 = run_one(u, budget_factor=3)
+            if 'crash' not in r2 and n_undecided(r2) < n_undecided(r):
+                r2['second_chance'] = True
+                results[k] = r2
     import shutil
     shutil.rmtree(tmpdir, ignore_errors=True)
 
